@@ -269,7 +269,7 @@ class Gen:
             for _ in range(n):
                 t = r.choice([None, "a", "a", "ab", "a::b", "b", "a::", "c", ""])
                 ds.append((t, self.lvl()))
-            if ds and r.random() < 0.25:  # replace-on-duplicate with a lower level: max_level stays high
+            if ds and r.random() < 0.25:  # replace-on-duplicate with a lower level: max_level is recomputed over the set
                 t, l = r.choice(ds)
                 ds.append((t, max(0, l - r.randint(1, 3))))
             return ("tgt", ds)
